@@ -8,5 +8,6 @@ import (
 func TestMain(m *testing.M) {
 	code := m.Run()
 	WriteStats()
+	RemoveScratch()
 	os.Exit(code)
 }
